@@ -651,8 +651,12 @@ func c01DoInproc(req c01Req) (obs c01Obs) {
 		obs.Consumed = rd.pos
 		obs.Reads = rd.reads
 		obs.Store = c01ScanStore(lfsdir)
-		for _, sc := range req.Smudge {
-			obs.Smudges = append(obs.Smudges, c01InprocSmudge(gf, obs.CleanOut, sc, req.SmudgeEOF, req.Path))
+		// smudge what clean emitted only when it is a pointer to an object that is now in local storage (otherwise the
+		// clean observation alone is returned and judged; smudge would try to download and exit)
+		if p, err := c01ParsePointer(obs.CleanOut); err == nil && (p.Size == 0 || c01FindObject(obs.Store, p.Oid) != nil) {
+			for _, sc := range req.Smudge {
+				obs.Smudges = append(obs.Smudges, c01InprocSmudge(gf, obs.CleanOut, sc, req.SmudgeEOF, req.Path))
+			}
 		}
 	}
 	if req.NoClean && req.SmudgeSrc != nil {
@@ -1062,18 +1066,18 @@ func c01SizeBucket(n int) string {
 func c01Class(in c01Input, wtRel string, ch c01Chunking, ext string) string {
 	n := len(in.Data)
 	var parts []string
-	if wtRel == "shorter" {
+	fr := ch.firstRead(n)
+	short := fr < n && fr < 1024
+	switch {
+	case short && c01ImplParses(in.Data):
+		parts = append(parts, "pointer-split-across-reads")
+	case short && fr > 0 && c01ImplParses(in.Data[:fr]):
+		parts = append(parts, "first-read-ends-on-pointer-boundary")
+	case wtRel == "shorter":
 		parts = append(parts, "worktree-file-shorter-than-stream")
-	} else if fr := ch.firstRead(n); fr < n && fr < 1024 {
-		switch {
-		case c01ImplParses(in.Data):
-			parts = append(parts, "pointer-split-across-reads")
-		case fr > 0 && c01ImplParses(in.Data[:fr]):
-			parts = append(parts, "first-read-ends-on-pointer-boundary")
-		default:
-			parts = append(parts, "short-first-read")
-		}
-	} else {
+	case short:
+		parts = append(parts, "short-first-read")
+	default:
 		parts = append(parts, "kind="+in.Kind+",size"+c01SizeBucket(n))
 	}
 	if ext != "" {
